@@ -55,7 +55,7 @@ def run(chk):
     if not proved:
         broken.append("proof obligations of Props/C03.v do not check: " + plog[-800:])
     g = evalgen.Gen(chk.rng)
-    n = 12000 if thorough else 900
+    n = 20000 if thorough else 8000
     fresh, derived = [], []
     for _ in range(n):
         d = evalgen.gen_doc(chk.rng)
